@@ -253,7 +253,7 @@ def cache_params():
 
 
 def exec_params():
-    out = dict(start='StartUnknown', ctor='CtorUnknown', wait='WaitUnknown', snap='SnapUnknown')
+    out = dict(start='StartUnknown', ctor='CtorUnknown', wait='WaitUnknown', snap='SnapUnknown', launch='LaunchUnknown')
     pr = _src('runners/process.py')
     w = _find(pr, 'ProcessExecutor', 'wait')
     if w is not None:
@@ -269,6 +269,18 @@ def exec_params():
         nested_alive = [n for i, st in enumerate(cq.body) if i not in alive for n in ast.walk(st) if isinstance(n, ast.Attribute) and n.attr == 'is_alive']
         if len(alive) == 1 and len(joins) == 1 and not nested_alive:
             out['snap'] = 'SnapBefore' if alive[0] < joins[0] else 'SnapAfter'
+    # launching one future: registered as running before it is removed from the pending table?
+    out['launch'] = 'LaunchUnknown'
+    sp_fn = _find(pr, 'ProcessExecutor', '_start_processes')
+    if sp_fn is not None:
+        loops = [n for n in sp_fn.body if isinstance(n, ast.For)]
+        if len(loops) == 1:
+            body = loops[0].body
+            reg = [i for i, n in enumerate(body) if isinstance(n, ast.Assign) and isinstance(n.targets[0], ast.Subscript) and 'running' in ast.unparse(n.targets[0].value)]
+            rem = [i for i, n in enumerate(body) if (isinstance(n, ast.Delete) and 'pending' in ast.unparse(n)) or ('pending' in ast.unparse(n) and '.pop(' in ast.unparse(n))]
+            sta = [i for i, n in enumerate(body) if isinstance(n, ast.Expr) and ast.unparse(n).endswith('.start()')]
+            if len(reg) == 1 and len(rem) == 1 and len(sta) == 1 and max(reg[0], rem[0]) < sta[0]:
+                out['launch'] = 'RegisterThenRemove' if reg[0] < rem[0] else 'RemoveThenRegister'
     fn = _find(pr, 'ProcessExecutor', '_start_processes')
     if fn is None:
         return out
@@ -453,6 +465,7 @@ def with_probes():
     _settle(ep, 'ctor', 'CtorUnknown', probed)
     _settle(ep, 'wait', 'WaitUnknown', probed)
     _settle(ep, 'snap', 'SnapUnknown', probed)
+    _settle(ep, 'launch', 'LaunchUnknown', probed)
     sg = storage_params()
     _settle(sg, 'g_chars', None, probed)
     for k in ('g_empty', 'g_key_parent', 'g_file_parent', 'g_delete_validates'):
@@ -501,7 +514,8 @@ def render():
     lines += ['Definition start_policy_src : start_policy := %(start)s.' % ep,
               'Definition proc_ctor_src : proc_ctor := %(ctor)s.' % ep,
               'Definition wait_policy_src : wait_policy := %(wait)s.' % ep,
-              'Definition snapshot_src : snap_pos := %(snap)s.' % ep]
+              'Definition snapshot_src : snap_pos := %(snap)s.' % ep,
+              'Definition launch_order_src : launch_order := %(launch)s.' % ep]
     lines += ['Definition save_order_src : save_order := %(order)s.' % cp,
               'Definition save_cleanup_src : save_cleanup := %(cleanup)s.' % cp]
     chars = sg['g_chars']
